@@ -63,7 +63,7 @@ PROPERTIES = {
                "free-symbol test; section rebuilders keep every assignment; memo invalidation; parenthesised location/scale templates. "
                "NOT decided: semantic equivalence of the if-flattening / alias rewrites."),
     "C03": dict(
-        specs=[S("D1"), S("A1-cond"), S("A4M"), S("FRESHCTX"), S("INDICATOR"), S("VOCAB", r"get_const_moment|get_support|dispatch"), S("TRANSFORMTERM")],
+        specs=[S("D1"), S("A1-cond"), S("A4M"), S("FRESHCTX"), S("INDICATOR"), S("VOCAB", r"get_const_moment|get_support|dispatch"), S("TRANSFORMTERM"), S("MGF")],
         clause="indicator polynomials of And/Or/Not/True/False equal their boolean meaning on all rows; composite conditions recurse into every child; the three "
                "get_moment bodies share the guarded-assignment shape. NOT decided: Atom's Lagrange indicator, power reduction, closure, coefficients."),
     "C04": dict(
@@ -88,7 +88,8 @@ PROPERTIES = {
         specs=[S("GROEBNER"), S("INVINPUTS", r"invariant_ideal"), S("RATLATTICE"), S("KAUERS"), S("ALIAS"), S("TRIVIAL"), S("DEADGUARD"), S("NORMDIM"), S("MAHLER"), S("PARITYROW"), S("QUANT", r"exponent_lattice")],
         clause="both groebner() calls compute elimination ideals (generator prefix == filtered symbols, lex order). NOT decided: completeness of the exponent lattice."),
     "C08": dict(
-        specs=[S("A1-dist"), S("A2", r"program/distribution/"), S("SAMPLERS"), S("ENUM"), S("FLOAT", r"float_to_rational|distribution"), S("CFMGF"), S("DISTREWRITE"), S("SUPPORTKIND"), S("MOMENTS"), S("MGFDOMAIN"), S("STATE", r"program/distribution|classmutable|modstate"), S("LRU", r"program/distribution")],
+        specs=[S("A1-dist"), S("A2", r"program/distribution/"), S("SAMPLERS"), S("ENUM"), S("FLOAT", r"float_to_rational|distribution"), S("CFMGF"), S("DISTREWRITE"), S("SUPPORTKIND"), S("MOMENTS"), S("MGFDOMAIN"), S("STATE", r"program/distribution|classmutable|modstate"), S("LRU", r"program/distribution"),
+               S("SPLICE", r"program/transformer/dist_transformer|program/distribution/")],
         clause="every parameter field is consulted by subs/free symbols/sampler/printer/moment/cf/mgf; scipy sampler arguments denote the moment side's law; discrete "
                "enumerations agree; float parameters become exact rationals; cf(t) == mgf(i t) as rational functions. NOT decided: any moment formula."),
     "C09": dict(
@@ -130,7 +131,7 @@ PROPERTIES = {
         clause="the rational kernel is not truncated to integers; the LLL loop returns only what passed the exact membership test. NOT decided: independence, completeness."),
     "C17": dict(
         specs=[S("SETTINGS-W"), S("SETTINGS-C"), S("ROOTS"), S("LOSSY", r"utils/expressions.py"), S("SOLVERFLAG"), S("REBUILD"), S("PARSER", r"_transform_categorical"),
-               S("ORDER", r"cond2arithm=True"), S("COND2ARITHM"), S("FLAGS"), S("TYPERFIX"), S("TYPER"), S("OPTRESOLVE")],
+               S("ORDER", r"cond2arithm=True"), S("COND2ARITHM"), S("FLAGS"), S("TYPERFIX"), S("TYPER"), S("OPTRESOLVE"), S("MEMOKEY")],
         clause="options are written only by the CLI setter and read at call time; settings<->options<->setter census; every root source is complete and approximations clear "
                "the flag; cond2arithm keeps every assignment; categorical expansion keeps index/value/probability aligned. NOT decided: equality of closed forms across settings."),
     "C18": dict(
@@ -146,7 +147,7 @@ PROPERTIES = {
         clause="parser templates are precedence-safe; arithmetic is re-stringified token by token; probability vectors and assigned names are validated; floats become "
                "exact rationals; simultaneous assignment puts all temporaries first. NOT decided: equality of the analyses of two spellings."),
     "C20": dict(
-        specs=[S("SETTINGS-W"), S("STATE"), S("RANDOM"), S("LRU"), S("FLAG"), S("SETORDER"), S("SOLVERSCOPE"), S("FRESHCTX"), S("LRUMUT"), S("CLIARGS"), S("INVINPUTS", r"aligned")],
+        specs=[S("SETTINGS-W"), S("STATE"), S("RANDOM"), S("LRU"), S("FLAG"), S("SETORDER"), S("SOLVERSCOPE"), S("FRESHCTX"), S("LRUMUT"), S("CLIARGS"), S("INVINPUTS", r"aligned"), S("MEMOKEY")],
         clause="inventory of process-global mutable state equals the reviewed table; settings are not written outside the setter (except scoped overrides); memoised "
                "callables read nothing the analysis phase mutates; order-sensitive consumers of sets equal the reviewed table; randomness only in the simulator; the class flag is refreshed by every normalisation. "
                "NOT decided: equality of results across histories / hash seeds."),
